@@ -418,7 +418,16 @@ def run(ctx: Ctx) -> int:
 	drift = [d for r in results for d in r['drift']]
 	if drift:
 		ctx.log(f'NOTE: the code departs from the specification on {stats["tree_differs_from_spec"]} meta-parse trees / {stats["structure_differs_from_spec"]} pattern structures (e.g. {drift[0][:300]}); the TLC proof does not speak for those cases, the direct round-trip and sentence clauses decide')
-	violations, fcov = fixed_points(spec_rules)
+	try:
+		violations, fcov = fixed_points(spec_rules)
+	except Machinery:
+		raise
+	except Exception as e:
+		# the fixed-point obligations run the code under test on its own grammars: a failure there is a failure of the obligation
+		import traceback
+		tb = traceback.extract_tb(e.__traceback__)
+		where = next((f'{os.path.basename(fr.filename)}:{fr.name}' for fr in reversed(tb) if '/rogw/tranp/' in fr.filename), '?')
+		violations, fcov = [Violation(f'FixedPoint:{type(e).__name__}', 'FixedPoint', f'working on the shipped grammars fails with {type(e).__name__} at {where}: {str(e).splitlines()[0][:160]}', {})], {}
 	hviolations, horders = history_independence()
 	violations += hviolations
 	fcov['history_orders'] = horders
